@@ -45,6 +45,14 @@ Definition env_restaked (blk : list event) : list Z :=
                         | _ => []
                         end) blk).
 
+(* validators that gave all of their stake back in this block: the staking end-block, which runs before the oracle's,
+   takes them out of the bonded set - they are no longer "bonded" when a slash window closes in the same block *)
+Definition env_emptied (blk : list event) : list Z :=
+  concat (map (fun e => match e with
+                        | EvBegin envs => concat (map (fun x => match x with EO (EnvSetTokens v t) => if t =? 0 then [v] else [] | _ => [] end) envs)
+                        | _ => []
+                        end) blk).
+
 (* every crisis invariant holds after every block (C14, also a health check for the others) *)
 Definition chk_invariants (c : case) (k : Z) (prev : snap) (blk : list event) (blko : list iobs) (sn : snap) : list Z :=
   if sn_inv sn then [] else [90].
@@ -60,6 +68,7 @@ Definition chk_C15 (c : case) (k : Z) (prev : snap) (blk : list event) (blko : l
     ++ (if forallb (fun v =>
             match zlookup (v_addr v) (sn_miss prev) with
             | Some m => if (mx <? m) && v_bonded v && negb (v_jailed v) && negb (memZ (v_addr v) ej)
+                           && negb (memZ (v_addr v) (env_emptied blk))
                         then match find_val (sn_vals sn) (v_addr v) with
                              | Some v' => v_jailed v' && (v_tokens v' <=? v_tokens v)
                              | None => false
